@@ -1,7 +1,7 @@
 SPECIFICATION Spec
 CONSTANTS
 Kinds = {"int", "string", "*int", "E1", "*E1"}
-Tags = {"", "oe", "nm", "dash"}
+Tags = {"", "oe", "dash"}
 MaxFields = 2
 Leaky = FALSE
 INVARIANT RefAdmitted
